@@ -147,6 +147,80 @@ func TestC10(t *testing.T) {
 		}
 		synctest.Test(t, func(t *testing.T) { c12Sim(t, run, sc) })
 	}
+	for k := 0; k < run.N(6, 60); k++ {
+		desc := map[string]any{"idx": k, "kind": "rollout-stopped-while-requests-wait"}
+		if !run.Mine(n+5000+k, desc) {
+			continue
+		}
+		synctest.Test(t, func(t *testing.T) { c10HeldStop(t, run, k, desc) })
+	}
+}
+
+// c10HeldStop: "all requests ... after `rollout stop` go to the active targets" - also the ones that
+// were received before it and are forwarded after it: requests with an included cookie value wait at
+// a paused service (or, placed by a hook delay, between the route lookup and the gate) while
+// `rollout stop` is issued and returns; when they go on, they go to the active targets.
+func c10HeldStop(t *testing.T, run *Run, idx int, desc any) {
+	w := NewWorld(t, WorldOpt{})
+	defer w.Close()
+	run.Eval()
+	const svc = "svc"
+	w.AddTarget("a1-t0:80", nil)
+	w.AddTarget("r1-t0:80", nil)
+	if c := w.Deploy(svc, []string{"a1-t0:80"}, DefSO, DefTO, 5*time.Second, time.Second); c.Err != "" {
+		run.Inconclusive("setup: %s", c.Err)
+		return
+	}
+	if c := w.RolloutDeploy(svc, []string{"r1-t0:80"}, 5*time.Second, time.Second); c.Err != "" {
+		run.Inconclusive("setup: %s", c.Err)
+		return
+	}
+	allow := []string(nil)
+	pct := 100
+	if idx%2 == 1 {
+		allow, pct = []string{"u1", "u2"}, 0
+	}
+	if c := w.RolloutSet(svc, pct, allow); c.Err != "" {
+		run.Inconclusive("setup: %s", c.Err)
+		return
+	}
+	paused := idx%3 != 2
+	t0 := w.Now() + time.Second
+	// before: an included value goes to the rollout targets
+	if r := w.Do(Req{ID: "before", Host: "c10.example", Path: "/", Hdr: [][2]string{{"Cookie", "kamal-rollout=u1"}}}); r.Status != 200 || !strings.HasPrefix(r.Target, "r1-") {
+		run.Violate("included-not-rollout", fmt.Sprintf("with the split set (%d%%, allowlist %v) cookie u1 got status=%d target=%q", pct, allow, r.Status, r.Target), desc, func() []string { return w.Trace(80) })
+		return
+	}
+	if paused {
+		w.At(t0, func() { w.Pause(svc, time.Second, 100*time.Second) })
+	}
+	for k := 0; k < 3; k++ {
+		id := fmt.Sprintf("w%d", k)
+		if !paused {
+			w.SetReqDelay(id, []string{"route.resolved", "service.gate.passed"}[k%2], 2*time.Second)
+		}
+		w.GoReq(t0+500*time.Millisecond+time.Duration(k)*10*time.Millisecond+OffArrival, Req{ID: id, Host: "c10.example", Path: "/", Hdr: [][2]string{{"Cookie", "kamal-rollout=u" + fmt.Sprint(1+k%2)}}})
+	}
+	var stopRec *CmdRec
+	w.At(t0+time.Second, func() { stopRec = w.RolloutStop(svc) })
+	if paused {
+		w.At(t0+2*time.Second, func() { w.Resume(svc) })
+	}
+	w.Wait()
+	if stopRec == nil || stopRec.Err != "" {
+		run.Inconclusive("rollout stop failed")
+		return
+	}
+	for _, r := range w.RespLog() {
+		if !strings.HasPrefix(r.ID, "w") {
+			continue
+		}
+		if r.Status != 200 || !strings.HasPrefix(r.Target, "a1-") || r.Done < stopRec.Ret {
+			run.Violate("rollout-after-stop:request-waiting", fmt.Sprintf("request %s (cookie value included by the split) arrived at %v and waited (%s); `rollout stop` returned at %v; it went on afterwards and got status=%d target=%q at %v", r.ID, r.Sent, map[bool]string{true: "service paused, resumed later", false: "delayed before the gate"}[paused], stopRec.Ret, r.Status, r.Target, r.Done), desc, func() []string { return w.Trace(120) })
+			return
+		}
+	}
+	run.Class(fmt.Sprintf("held-stop|paused=%v|allowlist=%v", paused, allow != nil))
 }
 
 func c10Run(t *testing.T, run *Run, sc c10Scenario, rng *rand.Rand) {
